@@ -10,8 +10,8 @@
 -/
 import Driver.ProtoMesh
 import FcModel.Spec.C14
-namespace Fc.Drv
-open Fc
+namespace Fc.Drv.C14
+open Fc Fc.C14
 
 def showDVal : DVal → String
   | .fin v => toString v
@@ -110,4 +110,7 @@ def handleC14 (op : String) : Option (P String) :=
   | "c14sub" => some opC14Sub
   | _ => none
 
-end Fc.Drv
+end Fc.Drv.C14
+
+/-- re-export for Driver/Main.lean -/
+def Fc.Drv.handleC14 := Fc.Drv.C14.handleC14
